@@ -42,6 +42,11 @@ instance : Monad Out where
 def isOk {α} : Out α → Bool
   | .ok _ => true
   | _ => false
+
+/-- the error class, if the outcome is an error -/
+def errOf {α} : Out α → Option String
+  | .err e => some e
+  | _ => none
 end Out
 
 /-! ## structural equality of trees (`reflect.DeepEqual` on canonically ordered trees) -/
